@@ -34,6 +34,7 @@ type xlDisp struct {
 	params []string    // Lean types of the parameters (without the receiver)
 	res    string
 	arms   []xlDispArm
+	nullAt map[int]bool
 }
 
 func (w *xlWorld) registerDispatch(f *xlFunc, p *xlPkg) error {
@@ -192,6 +193,16 @@ func (w *xlWorld) registerDispatch(f *xlFunc, p *xlPkg) error {
 		}
 	}
 	w.disps[f] = d
+	d.nullAt = nullAt
+	if f.RecFuel == "" {
+		// a method table over non-recursive implementations: a plain definition
+		for _, a := range d.arms {
+			if _, ok := w.done[a.fn]; !ok {
+				return fmt.Errorf("a Dispatch entry without RecFuel needs implementations translated before it")
+			}
+		}
+		return nil
+	}
 	w.recs[method] = &xlRec{lean: f.Lean + "_rec", param: "rec_" + f.Lean, f: f, sig: sig, isDisp: true,
 		typ: "(" + strings.Join(append(append([]string{"Node"}, d.params...), "Go.Res "+d.res), " → ") + ")"}
 	return nil
@@ -202,6 +213,28 @@ func (w *xlWorld) translateDispatch(p *xlPkg, f *xlFunc) (string, error) {
 	d := w.disps[f]
 	if d == nil {
 		return "", fmt.Errorf("dispatcher was not registered (Dispatch needs RecFuel)")
+	}
+	var tbl0 []string
+	for _, a := range d.arms {
+		tbl0 = append(tbl0, strings.Join(a.impls, ", ")+" ↦ "+w.dispTarget(a.fn))
+	}
+	if f.RecFuel == "" {
+		var b strings.Builder
+		fmt.Fprintf(&b, "/-- dynamic dispatch of %s.%s.%s on the implementation of the receiver: %s -/\n", f.Pkg, f.Dispatch, f.Name, strings.Join(tbl0, "; "))
+		fmt.Fprintf(&b, "def %s (recv : Node)", f.Lean)
+		var args []string
+		for i, t := range d.params {
+			args = append(args, fmt.Sprintf("a%d", i+1))
+			fmt.Fprintf(&b, " (a%d : %s)", i+1, t)
+		}
+		fmt.Fprintf(&b, " : Go.Res %s :=\n  match recv with\n", d.res)
+		for _, a := range d.arms {
+			ctor := map[string]string{"cont": ".cont", "list": ".list", "leaf": ".leaf"}[a.kind]
+			fmt.Fprintf(&b, "  | %s x => %s\n", ctor, strings.Join(append([]string{w.done[a.fn].lean, "x"}, args...), " "))
+		}
+		w.dispDone[f.Name] = f.Lean
+		w.dispInfo[f.Name] = d
+		return b.String(), nil
 	}
 	rec := w.recs[d.method]
 	var b strings.Builder
@@ -238,6 +271,7 @@ func (w *xlWorld) translateDispatch(p *xlPkg, f *xlFunc) (string, error) {
 	}
 	fmt.Fprintf(&b, " : Go.Res %s :=\n  %s\n", d.res, strings.Join(append([]string{rec.lean, "(" + recFuel + ")"}, names...), " "))
 	w.dispDone[f.Name] = f.Lean
+	w.dispInfo[f.Name] = d
 	return b.String(), nil
 }
 
